@@ -302,6 +302,32 @@ def example_check(i):
     return None
 
 
+def exact_fit_case(size, ninstr):
+    """A program whose code and data fill a memory of `size` words exactly: ninstr instructions + (size - ninstr) data words."""
+    ndata = size - ninstr
+    vals = [(0x1111 * (k + 1)) & 0xFFFF for k in range(ndata)]
+    lines = ["INC"] * (ninstr - 1) + ["LDA d"] if ndata else ["INC"] * ninstr
+    text = "\n".join(lines) + ("\n.data\nd: .word " + ", ".join(str(v) for v in vals) if ndata else "") + "\n"
+    words = [MN.index("INC") << 12] * (ninstr - 1) + [(MN.index("LDA") << 12) | (size - ndata)] if ndata else [MN.index("INC") << 12] * ninstr
+    cells = {size - ndata + k: v for k, v in enumerate(vals)}
+    return text, words, cells
+
+
+def exact_fit_shard(shard):
+    size = shard
+    p = Partial()
+    for ninstr in range(1, size + 1):
+        text, words, cells = exact_fit_case(size, ninstr)
+        p.evaluations += 1
+        p.nontrivial += 1
+        p.counters["program-filling-the-memory-exactly"] += 1
+        d = check_text(text, words, cells, ninstr - 1, False, size)
+        if d:
+            p.violation(dict(oracle="toy-assembler", field="exact-fit"), dict(kind="toy-text", text=text, words=words, cells={str(k): v for k, v in cells.items()}, max_pc=ninstr - 1, after=False, size=size),
+                        f"{ninstr} instructions + {size - ninstr} data words in a memory of {size} words: {d}", size=(size, ninstr))
+    return p
+
+
 FRESH_TEXTS = [EX1, EX3, "INC\n.data\nv: .word 7\n", "l: LDA v\nBRZ l\nNOP\nSTO w\n.data\nv: .word 1, 2\nw: .word 0x0FF\n", "NOP\nnop\nx: NOP\nBRZ x\n"]
 
 
@@ -354,6 +380,10 @@ def run(ctx):
     sizes = (64, 1000, 4095) if ctx.quick else (16, 64, 256, 1000, 2048, 4095)
     part = pmap(asm_shard, [(L, f, FRAMINGS, size) for size in sizes for L in (1, 2) for f in range(nchoices)][::-1])
     ctx.space("assembler-other-memory-sizes", part, t0, sizes=list(sizes), lines=[1, 2])
+    t0 = time.time()
+    part = pmap(exact_fit_shard, [4, 8, 16] + ([32, 64] if not ctx.quick else []))
+    ctx.space("programs-filling-the-memory-exactly", part, t0, sizes=[4, 8, 16] + ([32, 64] if not ctx.quick else []), note="every split of the memory into n instructions + (size - n) data words")
+    ctx.require("program-filling-the-memory-exactly")
     t0 = time.time()
     items = fresh_items()
     part = pmap(freshcmp.shard, [items[i::16] for i in range(16) if items[i::16]])
